@@ -71,7 +71,120 @@ let read_op t =
   | "sw" ->
       let l = next_zlist t in
       (OSwapWith l, SSwapWith l)
+  | "rs0" ->
+      let n = next_z t in
+      (OResize (n, Z0), SResize (n, Z0))
+  | "acs" | "pez" | "plz" ->
+      let a = next_zlist t @ [ Z0 ] in
+      (OAppendCstr a, SAppendCstr a)
+  | "zcs" | "zeq" ->
+      let a = next_zlist t @ [ Z0 ] in
+      (OAssignCstr a, SAssignCstr a)
+  | "ast" | "pes" | "pls" ->
+      let l = next_zlist t in
+      (OAppendStr l, SAppendStr l)
+  | "plc" | "pec" ->
+      let c = next_z t in
+      (OAppendFill (z_of_int 1, c), SAppendFill (z_of_int 1, c))
+  | "av" ->
+      let l = next_zlist t in
+      (OAppendPtr (l, zlen l), SAppendPtr (l, zlen l))
+  | "zv" ->
+      let l = next_zlist t in
+      (OAssignPtr (l, zlen l), SAssignPtr (l, zlen l))
+  | "ass" ->
+      let l = next_zlist t in
+      let p = next_z t in
+      let n = next_z t in
+      (OAppendStrSub (l, p, n), SAppendStrSub (l, p, n))
+  | "avs" ->
+      let l = next_zlist t in
+      let p = next_z t in
+      let n = next_z t in
+      (OAppendViewSub (l, p, n), SAppendViewSub (l, p, n))
+  | "zss" ->
+      let l = next_zlist t in
+      let p = next_z t in
+      let n = next_z t in
+      (OAssignStrSub (l, p, n), SAssignStrSub (l, p, n))
+  | "zvs" ->
+      let l = next_zlist t in
+      let p = next_z t in
+      let n = next_z t in
+      (OAssignViewSub (l, p, n), SAssignViewSub (l, p, n))
+  | "ics" ->
+      let i = next_z t in
+      let a = next_zlist t @ [ Z0 ] in
+      (OInsertCstr (i, a), SInsertCstr (i, a))
+  | "ist" | "iv" ->
+      let i = next_z t in
+      let l = next_zlist t in
+      (OInsertPtr (i, l, zlen l), SInsertPtr (i, l, zlen l))
+  | "iss" | "ivs" ->
+      let i = next_z t in
+      let l = next_zlist t in
+      let p = next_z t in
+      let n = next_z t in
+      (OInsertStrSub (i, l, p, n), SInsertStrSub (i, l, p, n))
+  | "erp" ->
+      let i = next_z t in
+      (OErasePos i, SErasePos i)
+  | "fer" ->
+      let c = next_z t in
+      (OFreeErase c, SFreeErase c)
+  | "fei" ->
+      let k = next_z t in
+      (OFreeEraseIf k, SFreeEraseIf (pred_of k))
   | _ -> raise Not_found
+
+(* operations whose argument is another basic_inplace_string object of the same type: it must exist,
+   i.e. hold at most Capacity characters ([arg_ok] of the theorem); otherwise the spec leg is "na"
+   and the model constructs it exactly like the harness does (precondition failure of the constructor) *)
+let str_arg name = List.mem name [ "ast"; "pes"; "pls"; "ass"; "zss"; "ist"; "iss"; "kss"; "ks"; "plzs"; "plcs" ]
+
+(* one harness operation = one or two model operations (constructors and operator+ with a left C string /
+   character build a new string and then append); the state is printed after the last one *)
+let read_op_named t =
+  let name = (match t.rest with x :: _ -> x | [] -> "") in
+  match name with
+  | "kss" ->
+      ignore (next_str t);
+      let l = next_zlist t in
+      let p = next_z t in
+      let n = next_z t in
+      (name, [ (OAssignStrSub (l, p, n), SAssignStrSub (l, p, n)) ])
+  | "ks" ->
+      ignore (next_str t);
+      let l = next_zlist t in
+      let p = next_z t in
+      (name, [ (OAssignStrSub (l, p, zlen l), SAssignStrSub (l, p, zlen l)) ])
+  | "kvs" ->
+      ignore (next_str t);
+      let l = next_zlist t in
+      let p = next_z t in
+      let n = next_z t in
+      (name, [ (OAssignViewSub (l, p, n), SAssignViewSub (l, p, n)) ])
+  | "kv" | "kr" ->
+      ignore (next_str t);
+      let l = next_zlist t in
+      (name, [ (OAssignPtr (l, zlen l), SAssignPtr (l, zlen l)) ])
+  | "kz" ->
+      ignore (next_str t);
+      let a = next_zlist t @ [ Z0 ] in
+      (name, [ (OAssignCstr a, SAssignCstr a) ])
+  | "plzs" ->
+      ignore (next_str t);
+      let a = next_zlist t @ [ Z0 ] in
+      let l = next_zlist t in
+      (name, [ (OAssignCstr a, SAssignCstr a); (OAppendStr l, SAppendStr l) ])
+  | "plcs" ->
+      ignore (next_str t);
+      let c = next_z t in
+      let l = next_zlist t in
+      (name, [ (OAssignFill (z_of_int 1, c), SAssignFill (z_of_int 1, c)); (OAppendStr l, SAppendStr l) ])
+  | _ ->
+      let m, sp = read_op t in
+      (name, [ (m, sp) ])
 
 let state_s (s : istr) = join [ "S"; zs (get_size s); zs (terminator s); zlist_s (contents s) ]
 let list_s (l : z list) = join [ "S"; string_of_int (List.length l); "0"; zlist_s l ]
@@ -87,45 +200,229 @@ let run_case op t =
   let ck, ct = kinds (next_str t) in
   let cap = next_z t in
   match op with
-  | "hist" ->
+  | "hist" | "histb" ->
+      let raw = op = "histb" in
       let n = next_int t in
-      let ops = List.init n (fun _ -> read_op t) in
+      let ops = List.init n (fun _ -> read_op_named t) in
       (* model: step by step, printing the observable state after every step *)
+      let str_of = function
+        | OAppendStr l | OAppendStrSub (l, _, _) | OAssignStrSub (l, _, _) | OInsertPtr (_, l, _)
+        | OInsertStrSub (_, l, _, _) -> Some l
+        | _ -> None
+      in
+      (* the basic_inplace_string argument of a harness operation is constructed first *)
+      let arg_exists name subs =
+        (not (str_arg name))
+        || List.for_all (fun (mo, _) -> match str_of mo with Some l -> fits cap l | None -> true) subs
+      in
       let rec go_m s acc = function
         | [] -> join (List.rev acc)
-        | (o, _) :: r -> (
-            match step s o with
-            | Ok s' -> go_m s' (state_s s' :: acc) r
+        | (name, subs) :: r -> (
+            let rec run_subs s ret = function
+              | [] -> Ok (s, ret)
+              | (o, _) :: more -> (
+                  let ret' =
+                    match (returned_pos o, returned_count s o) with
+                    | Some p, _ -> [ "R"; zs p ]
+                    | None, Ok (Some n) -> [ "R"; zs n ]
+                    | _ -> ret
+                  in
+                  match step s o with
+                  | Ok s' -> run_subs s' ret' more
+                  | Contract -> Contract
+                  | UB k -> UB k
+                  | OutOfFuel -> OutOfFuel)
+            in
+            match (if arg_exists name subs then run_subs s [] subs else Contract) with
+            | Ok (s', ret) ->
+                if raw then go_m s' (join ("B" :: List.map zs s'.buf) :: acc) r
+                else go_m s' (join (state_s s' :: ret) :: acc) r
             | Contract -> join (List.rev ("contract" :: acc))
             | UB _ -> join (List.rev ("ub" :: acc))
             | OutOfFuel -> join (List.rev ("fuel" :: acc)))
       in
       let rec go_s l acc = function
         | [] -> join (List.rev acc)
-        | (_, o) :: r -> (
-            match spec_step_fits cap l o with
-            | Some l' -> go_s l' (list_s l' :: acc) r
+        | (name, subs) :: r -> (
+            let rec run_subs l ret = function
+              | [] -> Some (l, ret)
+              | (_, o) :: more -> (
+                  let ret' =
+                    match (spec_returned_pos o, spec_returned_count l o) with
+                    | Some p, _ -> [ "R"; zs p ]
+                    | None, Some n -> [ "R"; zs n ]
+                    | _ -> ret
+                  in
+                  match spec_step_fits cap l o with Some l' -> run_subs l' ret' more | None -> None)
+            in
+            match (if arg_exists name subs then run_subs l [] subs else None) with
+            | Some (l', ret) -> go_s l' (join (list_s l' :: ret) :: acc) r
             | None -> "na")
       in
-      (go_m (default_str cap ck) [ "ok" ] ops, go_s [] [ "ok" ] ops)
-  | "replace" -> (
+      (go_m (default_str cap ck) [ "ok" ] ops, if raw then "na" else go_s [] [ "ok" ] ops)
+  | "replace" | "replace5" | "replacep" | "replacez" -> (
       let l = next_zlist t in
       let pos = next_z t in
       let cnt = next_z t in
-      let src = next_zlist t in
-      let spec =
-        (* std::string::replace(pos, count, str): pos <= size *)
-        if Big.leq (big_of_z pos) (Big.of_int (List.length l)) then begin
-          let p = int_of_z pos in
-          let rest = List.length l - p in
-          let c = if Big.lt (big_of_z cnt) (Big.of_int rest) then int_of_z cnt else rest in
-          let r = List.filteri (fun i _ -> i < p) l @ src @ List.filteri (fun i _ -> i >= p + c) l in
-          if fits cap r then "ok " ^ list_s r else "na"
-        end
-        else "na"
+      let src0 = next_zlist t in
+      let src = if op = "replacez" then src0 @ [ Z0 ] else src0 in
+      let pos2, cnt2 =
+        match op with
+        | "replace5" ->
+            let a = next_z t in
+            let b = next_z t in
+            (a, b)
+        | "replacep" -> (Z0, next_z t)
+        | _ -> (Z0, Z0)
       in
+      (* what std::string::replace inserts *)
+      let ins =
+        match op with
+        | "replace" -> Some src
+        | "replace5" -> s_substr src pos2 cnt2
+        | "replacep" -> Some (List.filteri (fun i _ -> i < int_of_z cnt2) src)
+        | _ -> s_cstr src
+      in
+      let spec =
+        match ins with
+        | Some x -> (
+            match s_replace l pos cnt x with
+            | Some r when fits cap r -> "ok " ^ list_s r
+            | _ -> "na")
+        | None -> "na"
+      in
+      if (op = "replace5" || op = "replace") && not (fits cap src) then ("contract", "na")
+      else
+        match mk_str cap ck l with
+        | Ok s ->
+            let m =
+              match op with
+              | "replace" -> replace_m s pos cnt src
+              | "replace5" -> replace5_m s pos cnt src pos2 cnt2
+              | "replacep" -> replace_ptr_m s pos cnt src cnt2
+              | _ -> replace_cstr_m s pos cnt src
+            in
+            (res_s state_s m, spec)
+        | _ -> ("contract", "na"))
+  | _ when (let k = (try String.sub op 0 (String.index op '_') with Not_found -> op) in
+            List.mem k [ "sp"; "sz"; "sc"; "c3"; "cz"; "c3z"; "c4p"; "cv"; "c3v"; "c5v"; "pfx"; "rel"; "idx"; "fb"; "ef" ]) -> (
+      let us = try String.index op '_' with Not_found -> String.length op in
+      let kind = String.sub op 0 us in
+      let name = if us < String.length op then String.sub op (us + 1) (String.length op - us - 1) else "" in
+      let l = next_zlist t in
+      let famv = function
+        | "find" -> FFind | "rfind" -> FRfind | "ffo" -> FFirstOf | "ffno" -> FFirstNotOf
+        | "flo" -> FLastOf | "flno" -> FLastNotOf | _ -> raise Not_found
+      in
+      let bools bl = join (List.map b2s bl) in
+      let cstr_arr () = arr_view (next_zlist t @ [ Z0 ]) in
       match mk_str cap ck l with
-      | Ok s -> (res_s state_s (replace_m s pos cnt src), spec)
+      | Ok s -> (
+          let search n pos =
+            let f = famv name in
+            (res_s zs (search_m0 f s n pos), "ok " ^ zs (search_s f l (needle_chars n) pos))
+          in
+          let cmp c =
+            ( res_s zs (compare_call_m s c),
+              match compare_call_s ct l c with Some x -> "ok " ^ zs x | None -> "na" )
+          in
+          match kind with
+          | "sp" ->
+              let a = arr_view (next_zlist t) in
+              let pos = next_z t in
+              let cnt = next_z t in
+              search (NPtrCount (a, cnt)) pos
+          | "sz" ->
+              let a = cstr_arr () in
+              let pos = next_z t in
+              search (NCstr a) pos
+          | "sc" ->
+              let c = next_z t in
+              let pos = next_z t in
+              search (NChar c) pos
+          | "c3" ->
+              let p1 = next_z t in
+              let n1 = next_z t in
+              let b = next_zlist t in
+              if fits cap b then cmp (CmpPosStr (p1, n1, view_of_list b)) else ("contract", "na")
+          | "cz" -> cmp (CmpCstr (cstr_arr ()))
+          | "c3z" ->
+              let p1 = next_z t in
+              let n1 = next_z t in
+              cmp (CmpPosCstr (p1, n1, cstr_arr ()))
+          | "c4p" ->
+              let p1 = next_z t in
+              let n1 = next_z t in
+              let a = arr_view (next_zlist t) in
+              let n2 = next_z t in
+              cmp (CmpPosPtrCount (p1, n1, a, n2))
+          | "cv" -> cmp (CmpStr (view_of_list (next_zlist t)))
+          | "c3v" ->
+              let p1 = next_z t in
+              let n1 = next_z t in
+              cmp (CmpPosView (p1, n1, view_of_list (next_zlist t)))
+          | "c5v" ->
+              let p1 = next_z t in
+              let n1 = next_z t in
+              let b = view_of_list (next_zlist t) in
+              let p2 = next_z t in
+              let n2 = next_z t in
+              cmp (CmpPos5View (p1, n1, b, p2, n2))
+          | "pfx" ->
+              let p =
+                match name with
+                | "v" -> PView (view_of_list (next_zlist t))
+                | "c" -> PChar (next_z t)
+                | "z" -> PCstr (cstr_arr ())
+                | _ -> raise Not_found
+              in
+              let m =
+                match (starts_with_call_m s p, ends_with_call_m s p, contains_call_m s p) with
+                | Ok a, Ok b, Ok c -> "ok " ^ bools [ a; b; c ]
+                | (Contract, _, _) | (_, Contract, _) | (_, _, Contract) -> "contract"
+                | _ -> "ub"
+              in
+              let n = pfx_chars p in
+              (m, "ok " ^ bools [ starts_with_s l n; ends_with_s l n; contains_s l n ])
+          | "rel" -> (
+              match name with
+              | "ss" -> (
+                  let b = next_zlist t in
+                  match mk_str cap ck b with
+                  | Ok sb -> (res_s bools (rel_str_str_m s sb), "ok " ^ bools (rel_s ct l b))
+                  | _ -> ("contract", "na"))
+              | "sz" ->
+                  let a = cstr_arr () in
+                  (res_s bools (rel_str_cstr_m s a), "ok " ^ bools (rel_s ct l (cstr_s (view_chars a))))
+              | "zs" ->
+                  let a = cstr_arr () in
+                  (res_s bools (rel_cstr_str_m a s), "ok " ^ bools (rel_s ct (cstr_s (view_chars a)) l))
+              | _ -> raise Not_found)
+          | "idx" ->
+              let i = next_z t in
+              let sp =
+                if Big.lt (big_of_z i) (Big.of_int (List.length l)) then "ok " ^ zs (zth l i)
+                else if Big.equal (big_of_z i) (Big.of_int (List.length l)) then "ok 0"
+                else "na"
+              in
+              (res_s zs (index_m s i), sp)
+          | "fb" ->
+              let m =
+                match (front_m s, back_m s) with
+                | Ok a, Ok b -> join [ "ok"; zs a; zs b ]
+                | Contract, _ | _, Contract -> "contract"
+                | _ -> "ub"
+              in
+              let sp =
+                if l = [] then "na" else join [ "ok"; zs (List.hd l); zs (List.nth l (List.length l - 1)) ]
+              in
+              (m, sp)
+          | "ef" ->
+              let n = List.length l in
+              let sz = zs (get_size s) in
+              ( join [ "ok"; b2s (empty_m s); b2s (full_m s); sz; sz; zs cap; zs cap; sz ],
+                join [ "ok"; b2s (n = 0); b2s (Big.equal (Big.of_int n) (big_of_z cap)); string_of_int n; string_of_int n; zs cap; zs cap; string_of_int n ] )
+          | _ -> raise Not_found)
       | _ -> ("contract", "na"))
   | _ -> (
       (* queries on a string with given contents *)
